@@ -112,6 +112,20 @@ def pc_hiding(case, lo):
                 fails.append("%s: opening proofs of differently blinded commitments are identical" % tag)
         elif lib_s(lo, "diff_seed.%d" % i) == "differ":
             fails.append("%s: commitment without hiding bound depends on the RNG" % tag)
+    # blinding polynomials: h+2 independent coefficients per blinded commitment (plain and shifted part)
+    if sch in ("marlin", "sonic"):
+        for i in range(n):
+            h = case.fields["hiding.%d" % i][0]
+            if h == "none":
+                continue
+            for part in ("rand", "srand"):
+                v = lo.get("%s.%d" % (part, i))
+                if v is None:
+                    continue
+                k = 0 if v[1] == ["-"] else len(v[1])
+                if k < int(h) + 2:
+                    fails.append("%s polynomial %d (%s): %s blinding polynomial has %d coefficients for hiding bound %s (needs %d)"
+                                 % (sch, i, case.meta["shapes"][i], "shifted" if part == "srand" else "unshifted", k, h, int(h) + 2))
     r = lib_s(lo, "commit_without_rng")
     if any(hid) and r == "ok":
         fails.append("%s commit with a hiding bound and no RNG returned commitments" % sch)
@@ -120,4 +134,19 @@ def pc_hiding(case, lo):
             fails.append("%s commit without hiding bounds needs an RNG (%s)" % (sch, r))
         if lib_s(lo, "commit_rng_bytes") not in (None, "0"):
             fails.append("%s commit without hiding bounds consumed %s bytes of the caller's RNG" % (sch, lib_s(lo, "commit_rng_bytes")))
+    return fails
+
+
+def pc_domain(case, lo):
+    """requests outside the domain at setup / trim must end in an error or abort"""
+    fails = []
+    if case.kind != "pc" or "refuse_stage" not in case.meta:
+        return fails
+    st = case.meta["refuse_stage"]
+    if st == "setup" and lib_s(lo, "setup") == "ok":
+        fails.append("%s setup served an out-of-domain request (%s)" % (case.meta["scheme"], case.meta["refuse_kind"]))
+    if st == "trim" and lib_s(lo, "setup") == "ok" and lib_s(lo, "trim") == "ok":
+        fails.append("%s trim served an out-of-domain request (%s: supported_degree %s, hiding %s, bounds %s, max_degree %s)"
+                     % (case.meta["scheme"], case.meta["refuse_kind"], case.fields["supported_degree"][0], case.fields["supported_hiding"][0],
+                        " ".join(case.fields["bounds"]), case.fields["max_degree"][0]))
     return fails
